@@ -104,11 +104,19 @@ CalcStats ==
 NextExport == ChooseData \/ ChooseSpec \/ ChooseX \/ ChooseYW
 Next == NextExport \/ HistPass \/ NumPass \/ NumConvert \/ NumMerge \/ NumKeep \/ CalcStats
 
+NextNoStats == NextExport \/ NumPass \/ NumConvert \/ NumMerge \/ NumKeep      \* self-test of MergeRefines
 Spec == Init /\ [][Next]_vars
 
 \* ---- properties ------------------------------------------------------------------------------
 \* the result dictionary the mechanisms build is accepted by the property-level spec
 MechRefines == phase = "done" => BAccept(c, st)
+
+\* the equal-occupancy bins the mechanism builds (before any statistic) are the ones the
+\* statement describes
+MergeRefines == (phase = "binned" /\ c.mode = "nperbin") =>
+    BByNumStructFailing(c, [err |-> "none", hist |-> st.hist, hasrev |-> TRUE, rev |-> st.rev,
+                            low |-> [i \in DOMAIN st.low |-> BRat(RInt(st.low[i]))],
+                            high |-> [i \in DOMAIN st.high |-> BRat(RInt(st.high[i]))]]) = {}
 
 \* the merge keeps the reverse-index array well formed and loses no datum
 MergeSafe == (phase = "binned" /\ c.mode = "nperbin") =>
